@@ -55,6 +55,8 @@ def kind_of_bool_expr(e, truth):
     if e[0] == "binop" and e[1] in ("Eq", "Ne", "Lt", "Le", "Gt", "Ge"):
         a, b = peel(e[2], widen=True), peel(e[3], widen=True)
         ca, cb = const_eval(a), const_eval(b)
+        if e[1] in ("Eq", "Ne") and is_len(a) and is_len(b):
+            return "len-vs-len"          # `rest.len() == input.len()`: nothing was consumed
         if e[1] in ("Eq", "Ne"):
             z = (cb == {0} and a) or (ca == {0} and b)
             if z:
